@@ -806,7 +806,7 @@ enum Slot {
 	PPR(PPR),
 }
 
-fn new_m(id: Lid, key: &mut ThreadKey) -> M {
+pub fn new_m(id: Lid, key: &mut ThreadKey) -> M {
 	let m = M::new(P { id, ver: 0 });
 	register_with(id, || {
 		let r = m.scoped_try_lock(&mut *key, |_| ());
@@ -815,7 +815,7 @@ fn new_m(id: Lid, key: &mut ThreadKey) -> M {
 	m
 }
 
-fn new_r(id: Lid, key: &mut ThreadKey) -> R {
+pub fn new_r(id: Lid, key: &mut ThreadKey) -> R {
 	let r = R::new(P { id, ver: 0 });
 	register_with(id, || {
 		let x = r.scoped_try_write(&mut *key, |_| ());
